@@ -48,10 +48,12 @@ theorem tie_stmt_contains (t : Tab H) (pid : Nat) : Filters.contains ⟨t⟩ pid
 /-- `Filters::get` (the table itself is unchanged) -/
 theorem tie_stmt_get (t : Tab H) (pid : Nat) : Filters.get ⟨t⟩ pid = .ok (⟨t⟩, Tab.get t pid) := by
   unfold Filters.get Tab.get
+  -- whichever way round the source writes the bounds test
   by_cases h : pid ≥ t.length
-  · simp only [h, decide_true, if_true, R.ok_bind, R.pure_eq]
+  · have h' : ¬ pid < t.length := by omega
+    simp only [h, h', decide_true, decide_false, Bool.false_eq_true, if_true, if_false, R.ok_bind, R.pure_eq]
   · have h' : pid < t.length := by omega
-    simp only [h, decide_false, Bool.false_eq_true, if_false, vecGet_ok t pid h', R.ok_bind, R.pure_eq]
+    simp only [h, h', decide_true, decide_false, Bool.false_eq_true, if_true, if_false, vecGet_ok t pid h', R.ok_bind, R.pure_eq]
     rw [List.getElem?_eq_getElem h']
 
 /-- `Filters::insert`: grows the table up to and including `pid`, then stores; never panics -/
@@ -73,8 +75,10 @@ theorem tie_stmt_insert (t : Tab H) (pid : Nat) (h : H) : Filters.insert ⟨t⟩
 theorem tie_stmt_remove (t : Tab H) (pid : Nat) : Filters.remove ⟨t⟩ pid = .ok ⟨Tab.remove t pid⟩ := by
   unfold Filters.remove Tab.remove
   by_cases hl : pid < t.length
-  · simp only [hl, decide_true, if_true, vecSet_ok t pid _ hl, R.ok_bind, R.pure_eq]
-  · simp only [hl, decide_false, Bool.false_eq_true, if_false, R.ok_bind, R.pure_eq]
+  · have hl' : ¬ pid ≥ t.length := by omega
+    simp only [hl, hl', decide_true, decide_false, Bool.false_eq_true, if_true, if_false, vecSet_ok t pid _ hl, R.ok_bind, R.pure_eq]
+  · have hl' : pid ≥ t.length := by omega
+    simp only [hl, hl', decide_true, decide_false, Bool.false_eq_true, if_true, if_false, R.ok_bind, R.pure_eq]
 
 /-- a queued change in the model's vocabulary -/
 def chOf : FilterChange H → Change H
